@@ -210,7 +210,7 @@ let () =
          let sorted = List.sort (fun (a, _) (b, _) -> Big_int_Z.compare_big_int a b) shares in
          let per = List.map (fun s ->
              let mine = List.filter_map (fun id -> List.find_opt (fun (i, _) -> Big_int_Z.eq_big_int i id) shares) s in
-             let r = if List.length mine <> List.length s then "E" else opt_fe (tassa_reconstruct k fromn ls mine) in
+             let r = if List.length mine <> List.length s then "E" else opt_fe (tassa_reconstruct k fromn (fun x -> x) ls mine) in
              "r" ^ r) (subsets_of subs) in
          Printf.printf "H %s %s | %s\n" tag
            (String.concat ";" (List.map (fun (id, v) -> z_to_string id ^ "=" ^ hex_of_z v) sorted))
